@@ -105,7 +105,29 @@ func (c *nfClient) isParserMethod(fn *types.Func) bool {
 
 func (c *nfClient) onRecv(e *Engine, call *ast.CallExpr) bool {
 	sel, ok := ast.Unparen(call.Fun).(*ast.SelectorExpr)
-	return ok && c.recv != nil && e.Lit == nil && objOf(e.Info, sel.X) == c.recv
+	return ok && c.recv != nil && e.Lit == nil && objOf(e.Info, e.ResolveExpr(sel.X)) == c.recv
+}
+
+// Inline: a helper that was cut out of a production and hands back several things at once (the optional `name =`
+// prefix of a column: name, span of the '=', error) is read where it is called, so that what it consumed and what
+// it returned stay connected. Productions proper (a node and an error) keep their summaries.
+func (c *nfClient) Inline(e *Engine, call *ast.CallExpr, callee *types.Func, decl *ast.FuncDecl) bool {
+	if callee == nil || !c.isParserMethod(callee) || !smallBody(decl) {
+		return false
+	}
+	sig := callee.Type().(*types.Signature)
+	if sig.Results().Len() < 3 || !isErrorType(sig.Results().At(sig.Results().Len()-1).Type()) {
+		return false
+	}
+	loops := false
+	ast.Inspect(decl.Body, func(n ast.Node) bool {
+		switch n.(type) {
+		case *ast.ForStmt, *ast.RangeStmt:
+			loops = true
+		}
+		return true
+	})
+	return !loops
 }
 
 func cntOf(st *State) string {
@@ -345,12 +367,12 @@ func (c *nfClient) PostAssign(e *Engine, st *State, lhs, rhs []ast.Expr, _ ast.S
 	info := e.Info
 	// save / restore of the cursor
 	if len(lhs) == 1 {
-		if sel, ok := ast.Unparen(rhs[0]).(*ast.SelectorExpr); ok && selName(sel) == "pos" && c.recv != nil && objOf(info, sel.X) == c.recv {
+		if sel, ok := ast.Unparen(rhs[0]).(*ast.SelectorExpr); ok && selName(sel) == "pos" && c.recv != nil && objOf(info, e.ResolveExpr(sel.X)) == c.recv {
 			if k := e.CanonSt(st, lhs[0]); k.OK {
 				return st.WithExt("save:"+e.objKey(objOf(info, lhs[0])), cntOf(st))
 			}
 		}
-		if sel, ok := ast.Unparen(lhs[0]).(*ast.SelectorExpr); ok && selName(sel) == "pos" && c.recv != nil && objOf(info, sel.X) == c.recv {
+		if sel, ok := ast.Unparen(lhs[0]).(*ast.SelectorExpr); ok && selName(sel) == "pos" && c.recv != nil && objOf(info, e.ResolveExpr(sel.X)) == c.recv {
 			if o := objOf(info, rhs[0]); o != nil {
 				if saved := st.Ext("save:" + e.objKey(o)); saved != "" {
 					return st.WithExt("cnt", saved)
@@ -397,6 +419,9 @@ func (c *nfClient) SplitAssign(e *Engine, st *State, lhs, rhs []ast.Expr, _ ast.
 		return nil
 	}
 	callee := Callee(e.Info, call)
+	if _, inPlace := e.inlined[call]; inPlace {
+		return nil // a helper read in place: what it consumed and returned is already in the state
+	}
 	// tok, ok := p.next(): at the end of the range nothing is consumed
 	if callee == c.w.next && c.onRecv(e, call) && len(lhs) == 2 {
 		if id, isID := lhs[1].(*ast.Ident); isID && id.Name != "_" {
